@@ -56,19 +56,20 @@ PROPS["C02"] = {
 
 PROPS["C17"] = {
     "id": "C17",
-    "lean_modules": ["JT.Props.C17"],
+    "lean_modules": ["JT.Props.C17", "JT.Props.C17Src"],
+    "extractors": ["golean"],
     "functional_ops": ["rtp", "rtpv", "rtpall", "rtpallv", "rtpseq"],
     "rule": ("packets of every data type 0..15 with random flag/PT/SIM/channel/sequence/timestamp/intervals, payload 0..950 and up to ~4000 bytes (incl. payloads starting with the marker), "
              "concatenated 1..4 at a time: `rtpv` first packet + remainder, `rtpallv` iteration to the end, every cut length of short packets and boundary cuts (15..30, len-1) of all, "
              "streams cut inside a later packet, damaged markers, arbitrary strings (half of them starting with the marker). "
              "A fresh Packet per step (receiver reuse is C03). distinct = distinct op lines; all cases are non-trivial (ok / short / unq are all claimed outcomes)."),
-    "technique": "Lean 4 proof: decode d = ok(p, rest) <-> d = stdEncode p ++ rest, truncation => short, iteration over concatenations; differential correspondence + standard-layout oracle",
+    "technique": "Lean 4 proof: decode d = ok(p, rest) <-> d = stdEncode p ++ rest, truncation => short, iteration over concatenations — about the model and about jt1078.Packet.Decode as translated from the Go source on every run (translated code proved equal to the model); differential correspondence + standard-layout oracle",
     "level_text": ("Machine-checked Lean 4 theorems for all packets and all byte strings: decode(stdEncode p ++ rest) = (p, rest) for every representable packet (any data type, any payload < 65536), "
                    "conversely whatever decodes IS a standard encoding (iff), every strict prefix of a packet is 'too short', >= 16 bytes without the marker are 'unqualified', < 16 bytes 'too short', "
                    "and iterating over any concatenation yields every packet with nothing left. The model mirrors jt1078.Decode on a fresh Packet and is compared with it on every run; "
                    "the harness also checks the Go decoder directly against packets it lays out from the standard."),
-    "level_note": "Trusted: Lean kernel; JT/Spec/Rtp.lean (reading of JT/T 1078 table 19); sampled tie; harness. Sticky videoFrame flag of a reused Packet is outside C17 (covered by C03).",
-    "trusted_base": [KERNEL, AXIOMS, TIE, HARNESS, "specification JT/Spec/Rtp.lean: reading of the JT/T 1078 RTP layout",
+    "level_note": "Trusted: Lean kernel; JT/Spec/Rtp.lean (reading of JT/T 1078 table 19); the Go->Lean translator and JT/Go/Sem.lean (Packet.Decode/decodeHead are translated from the source on every run and proved equal to the model: rtp_decode_go); harness. A reused Packet is outside the value model (covered by the rtpseq correspondence and C03).",
+    "trusted_base": [KERNEL, AXIOMS, TRANSL.replace("the frame codec (", "the frame codec and jt1078.Packet.Decode/decodeHead ("), TIE, HARNESS, "specification JT/Spec/Rtp.lean: reading of the JT/T 1078 RTP layout",
                      "modelled rather than verified: Go slices as value lists; errors.Join classes mapped to short/unq"],
     "assumptions": ["a fresh Packet is used for every Decode call", "error classes compared: header-too-short and body-too-short both count as 'too short'"],
 }
